@@ -44,7 +44,7 @@ def variants(rep, spec, base):
 	changed = []
 	for l in spec2['labels']:
 		nd = spec2['nodes'][str(l)]
-		obj = base['objs'][l]
+		node_ = base['objs'][l]; obj = simlib.attr_holder(spec, node_)
 		if rng.random() < .5:
 			nd['slt'] = (nd['slt'] + 1) % 4; obj.shipment_lead_time = nd['slt']; changed.append('slt')
 		if rng.random() < .3:
@@ -52,7 +52,7 @@ def variants(rep, spec, base):
 		if rng.random() < .5 and nd['policy']['t'] in ('BS', 'EBS'):
 			nd['policy']['a'] = core.fr(F(nd['policy']['a']) + 3); obj.inventory_policy.base_stock_level = simlib.num(nd['policy']['a']); changed.append('S')
 		if rng.random() < .3:
-			nd['cap'] = core.fr(F(7, 2)) if nd['cap'] in (None, '0') else None; obj.order_capacity = simlib.num(nd['cap']); changed.append('cap')
+			nd['cap'] = core.fr(F(7, 2)) if nd['cap'] in (None, '0') else None; node_.order_capacity = simlib.num(nd['cap']); changed.append('cap')
 		if rng.random() < .3:
 			nd['initIL'] = '6'; obj.initial_inventory_level = 6; changed.append('initIL')
 	if changed:
